@@ -44,6 +44,8 @@ Targets(e, p) == IF e.ovf = 0 THEN {Wrapped(e, p)}
                  ELSE IF e.ovf = 1 THEN Reassigned(e, p)
                  ELSE IF \A v \in VarsOf(e) : InRange(p[v + 2], e.w, e.rep) THEN {p} ELSE {}
 Pick(S) == IF S = {} THEN <<>> ELSE CHOOSE x \in S : TRUE
+\* a witness with integer coordinates is preferred (the known defect of the grid partition only loses non-integral points)
+PickI(S) == LET I == {p \in S : p[1] = 1} IN IF I # {} THEN Pick(I) ELSE Pick(S)
 Diffs(e) ==
   IF e.e \in {"Crash", "Hang"} THEN {<<"C17:" \o e.e, <<>>>>}
   ELSE IF e.e # "Case" \/ e.big THEN {}
@@ -60,14 +62,38 @@ Diffs(e) ==
         ELSE IF lostD # {} THEN {<<"C17:drop_some_non_integer_points-discards-an-integer-point", Pick(lostD)>>}
         ELSE IF gainD # {} THEN {<<"C17:drop_some_non_integer_points-is-not-a-subset", Pick(gainD)>>} ELSE {})
   \cup (IF e.cexc = "" /\ ~e.cip /\ A # {} THEN {<<"C17:contains_integer_point-false-refuted-by-a-point", Pick(A)>>} ELSE {})
+(* ---- C09 on powersets of grids: covering laws (events "GCover" of harness/wrap.cc in mode gcover).  X is a powerset of up to three grids,
+   Xr the same disjuncts in reverse order, Y its first disjunct alone, Xo / Xp its omega- / pairwise-reduced copies, D = X \ Y, M = X meet Xr.
+   Equal unions must be recognised whatever the order of the disjuncts; a claimed covering is refuted by a sample point. *)
+GDiffs(e) ==
+  IF e.big THEN {}
+  ELSE
+  LET allp == IntPts(e.n, e.w) \cup HalfPts(e.n, e.w)
+      law(b, name) == IF b THEN {} ELSE {<<"C09:grid-powerset:" \o name, <<>>>>}
+      inXnotY == {p \in allp : In(e.X, p) /\ ~In(e.Y, p)}
+      lostO == {p \in allp : In(e.X, p) /\ ~In(e.Xo, p)}   gainO == {p \in allp : In(e.Xo, p) /\ ~In(e.X, p)}
+      lostP == {p \in allp : In(e.X, p) /\ ~In(e.Xp, p)}
+      lostD == {p \in allp : In(e.X, p) /\ ~In(e.Y, p) /\ ~In(e.D, p)}   gainD == {p \in allp : In(e.D, p) /\ ~In(e.X, p)}
+      lostM == {p \in allp : In(e.X, p) /\ ~In(e.M, p)}   gainM == {p \in allp : In(e.M, p) /\ ~In(e.X, p)}
+  IN law(e.refl_covers, "X-does-not-cover-itself") \cup law(e.refl_equals, "X-not-geometrically-equal-to-itself")
+     \cup law(e.rev_covers, "covering-depends-on-the-order-of-the-disjuncts") \cup law(e.covers_rev, "covering-depends-on-the-order-of-the-disjuncts")
+     \cup law(e.rev_equals, "geometric-equality-depends-on-the-order-of-the-disjuncts")
+     \cup law(e.x_covers_y, "X-does-not-cover-its-own-first-disjunct") \cup law(e.omega_equals, "omega-reduced-copy-not-geometrically-equal")
+     \cup law(e.pairwise_covers, "pairwise-reduced-copy-does-not-cover-the-original")
+     \cup law(e.entails_rev, "X-does-not-entail-its-reordering") \cup law(e.contains_y, "X-does-not-contain-its-own-first-disjunct")
+     \cup (IF e.y_covers_x /\ inXnotY # {} THEN {<<"C09:grid-powerset:covering-claimed-but-a-point-is-not-covered", PickI(inXnotY)>>} ELSE {})
+     \cup (IF lostO # {} THEN {<<"C09:grid-powerset:omega_reduce-loses-a-point", Pick(lostO)>>} ELSE IF gainO # {} THEN {<<"C09:grid-powerset:omega_reduce-adds-a-point", Pick(gainO)>>} ELSE {})
+     \cup (IF lostP # {} THEN {<<"C09:grid-powerset:pairwise_reduce-loses-a-point", Pick(lostP)>>} ELSE {})
+     \cup (IF lostD # {} THEN {<<"C09:grid-powerset:difference-loses-a-point", PickI(lostD)>>} ELSE IF gainD # {} THEN {<<"C09:grid-powerset:difference-adds-a-point-outside-X", Pick(gainD)>>} ELSE {})
+     \cup (IF lostM # {} THEN {<<"C09:grid-powerset:meet-with-itself-loses-a-point", Pick(lostM)>>} ELSE IF gainM # {} THEN {<<"C09:grid-powerset:meet-adds-a-point", Pick(gainM)>>} ELSE {})
 VARIABLES l, bad, ncase
 Init == l = 1 /\ bad = <<>> /\ ncase = 0
 Next == /\ l <= Len(Tr) + 1
         /\ IF l = Len(Tr) + 1
            THEN JsonSerialize(IOEnv.VOUT, [n |-> Len(Tr), bad |-> bad, und |-> <<>>, cases |-> ncase]) /\ UNCHANGED <<bad, ncase>>
-           ELSE \E ds \in {Diffs(Tr[l])} :
+           ELSE \E ds \in {IF Tr[l].e = "GCover" THEN GDiffs(Tr[l]) ELSE Diffs(Tr[l])} :
                 LET s == SetToSeq(ds) IN
                 /\ bad' = bad \o [i \in 1..Len(s) |-> [l |-> l, op |-> "Case", why |-> s[i][1], pt |-> s[i][2]]]
-                /\ ncase' = ncase + (IF Tr[l].e = "Case" THEN 3 ELSE 0)
+                /\ ncase' = ncase + (IF Tr[l].e = "Case" THEN 3 ELSE IF Tr[l].e = "GCover" THEN 12 ELSE 0)
         /\ l' = l + 1
 =====================================================================
